@@ -75,6 +75,10 @@ pub enum Op {
     DeleteBranch { branch: usize },
     ResetHard { commit: usize },
     Amend { actor: usize, dt: i64, adt: i64 },
+    /// a new root commit on a new branch (unrelated history)
+    Orphan { name: String, actor: usize, dt: i64 },
+    /// a tag whose object is the tree of a commit (never on any commit, whatever its name)
+    TagTree { name: String, commit: usize },
     Dirty { kind: DirtyKind },
     Clean,
     PackRefs,
@@ -127,6 +131,8 @@ pub struct World {
     pub commits: Vec<CommitM>,
     pub branches: Vec<BranchM>,
     pub tags: Vec<TagM>,
+    /// tags pointing at tree objects: they exist as refs but are on no commit
+    pub tree_tags: Vec<(String, String)>,
     pub head: Head,
     pub dirt: BTreeSet<DirtyKind>,
     pub nfiles: usize,
@@ -157,6 +163,7 @@ impl World {
             commits: vec![],
             branches: vec![],
             tags: vec![],
+            tree_tags: vec![],
             head: Head::Branch("main".into()),
             dirt: BTreeSet::new(),
             nfiles: 0,
@@ -508,7 +515,7 @@ impl World {
                     _ => None,
                 };
                 let Some(at) = at else { return Ok("skip: unborn".into()) };
-                if self.tags.iter().any(|t| t.alive && &t.name == name) {
+                if self.tags.iter().any(|t| t.alive && &t.name == name) || self.tree_tags.iter().any(|(n, _)| n == name) {
                     return Ok("skip: tag exists".into());
                 }
                 let (ct, tz) = self.tick(*actor, *dt);
@@ -549,6 +556,49 @@ impl World {
                 self.git_ok(&["tag", "-d", "--", &name], None, None)?;
                 self.tags[ti].alive = false;
                 Ok(format!("deleted tag {name}"))
+            }
+            Op::Orphan { name, actor, dt } => {
+                if self.head_commit().is_none() {
+                    return Ok("skip: unborn".into());
+                }
+                if self.branches.iter().any(|b| b.alive && &b.name == name) {
+                    return Ok("skip: branch exists".into());
+                }
+                // `checkout --orphan` only rewrites HEAD; a directory/file conflict with an existing
+                // ref would surface later, at the first update-ref
+                let conflict = |a: &str, b: &str| a.starts_with(&format!("{b}/")) || b.starts_with(&format!("{a}/"));
+                if self.branches.iter().any(|b| b.alive && conflict(&b.name, name)) {
+                    return Ok("skip: ref directory/file conflict".into());
+                }
+                self.auto_clean()?;
+                match self.git(&["checkout", "-q", "--orphan", name, "--"], None, None) {
+                    Ok(_) => {}
+                    Err(e) => return Ok(format!("skip: git refused orphan {name:?}: {}", e.lines().next().unwrap_or(""))),
+                }
+                self.head = Head::Branch(name.clone());
+                let (ct, tz) = self.tick(*actor, *dt);
+                let tree = self.git_ok(&["write-tree"], None, None)?;
+                let msg = format!("root c{}", self.commits.len());
+                let id = self.new_commit(vec![], ct, ct, &tz, &tree, &msg)?;
+                Ok(format!("orphan {name} root #{id}"))
+            }
+            Op::TagTree { name, commit } => {
+                if self.commits.is_empty() {
+                    return Ok("skip: unborn".into());
+                }
+                if self.tags.iter().any(|t| t.alive && &t.name == name) || self.tree_tags.iter().any(|(n, _)| n == name) {
+                    return Ok("skip: tag exists".into());
+                }
+                let c = *commit % self.commits.len();
+                let spec = format!("{}^{{tree}}", self.commits[c].hash);
+                let tree = self.git_ok(&["rev-parse", &spec], None, None)?;
+                match self.git(&["tag", "--", name, &tree], None, None) {
+                    Ok(_) => {
+                        self.tree_tags.push((name.clone(), tree));
+                        Ok(format!("tree tag {name}"))
+                    }
+                    Err(e) => Ok(format!("skip: git refused tree tag {name:?}: {}", e.lines().next().unwrap_or(""))),
+                }
             }
             Op::Dirty { kind } => {
                 if self.head_commit().is_none() {
@@ -655,6 +705,12 @@ impl World {
             if let Some(n) = f[0].strip_prefix("refs/heads/") {
                 got_b.insert(n.to_string(), f[2].to_string());
             } else if let Some(n) = f[0].strip_prefix("refs/tags/") {
+                if f[1] == "tree" {
+                    if !self.tree_tags.iter().any(|(tn, th)| tn == n && th == f[2]) {
+                        return herr(format!("repository has tree tag {n:?} unknown to the model"));
+                    }
+                    continue;
+                }
                 tag_names.push((n.to_string(), f[1].to_string()));
             }
         }
